@@ -61,6 +61,14 @@ theorem scale_as_power {κ δ : Type*} [Fintype κ] [DecidableEq κ] [Fintype δ
   rw [← prod_sum_swap (fun (p : κ × Fin s) d => g p.1 d), Fintype.prod_prod_type]
   simp [Finset.prod_const, Finset.prod_pow]
 
+/-- `scale_is_replication` (single plate): the product over `s` replicas of a plate is the `s`-th power of
+    the plate's product — what `plate_to_scale` computes with `pow_op` (`x**s`; `s*x` in log / max-plus
+    carriers, which are this statement read through `exp`). -/
+theorem scale_is_replication {κ : Type*} [Fintype κ] (s : ℕ) (h : κ → R) :
+    ∏ p : κ × Fin s, h p.1 = (∏ k, h k) ^ s := by
+  rw [Fintype.prod_prod_type]
+  simp [Finset.prod_const, Finset.prod_pow]
+
 /-- `two_calls_eq_one` (inner-first split): the first call sums the variable local to the inner
     plate `κ₁` and multiplies that plate out, for every index of the outer plate `κ₂` (which it sees
     as an ordinary batch input); the second call multiplies out `κ₂` and sums the outer variable.
